@@ -13,6 +13,28 @@ QPP = "codelimit.common.report.Report:Report.quality_profile_percentage"
 CATS = ("easy", "verbose", "hard_to_maintain", "unmaintainable")
 
 
+
+def linear(e, names) -> dict | None:
+    """linear normal form {name: coeff, '1': const} of an expression over `names`, or None"""
+    c = const_int(e)
+    if c is not None:
+        return {"1": c}
+    if isinstance(e, ast.Name) and e.id in names:
+        return {e.id: 1}
+    if isinstance(e, ast.BinOp) and isinstance(e.op, (ast.Add, ast.Sub)):
+        a, b = linear(e.left, names), linear(e.right, names)
+        if a is None or b is None:
+            return None
+        out = dict(a)
+        for k, v in b.items():
+            out[k] = out.get(k, 0) + (v if isinstance(e.op, ast.Add) else -v)
+        return {k: v for k, v in out.items() if v != 0}
+    if isinstance(e, ast.UnaryOp) and isinstance(e.op, ast.USub):
+        a = linear(e.operand, names)
+        return None if a is None else {k: -v for k, v in a.items()}
+    return None
+
+
 POS_HINT = "the profile total is positive"
 
 
